@@ -1,5 +1,5 @@
     requires layout_keys@.len() <= u32::MAX,
-    ensures r is Ok ==> verified(*layout, layout_keys@, link_dir@),   // [C01,C06,C08]
+    ensures r is Ok ==> verified(*layout, layout_keys@, link_dir@),   // [C01,C02,C03,C06,C07,C08]
             r is Ok ==> r->Ok_0.metadata is Link,                       // [C15,C14]
             r is Ok ==> r->Ok_0.metadata->Link_0.name@ == (match step_name { Some(n) => n@, None => Seq::empty() }),   // [C15]
             // C01 in the property's own words (corollary of owner_gate by lemma_owner_gate_every_key_signed):
